@@ -18,6 +18,8 @@ from typing import Any, Dict, List
 
 import h3
 
+from nrel.hive.dispatcher.instruction.instructions import DispatchTripInstruction
+from nrel.hive.dispatcher.instruction_generator.dispatcher import Dispatcher
 from nrel.hive.model.request import Request, RequestRateStructure
 from nrel.hive.model.sim_time import SimTime
 from nrel.hive.reporting.report_type import ReportType
@@ -196,6 +198,7 @@ def gen_case(rng: random.Random, k: int) -> Dict[str, Any]:
         price_fn = ChargingPriceUpdate.build(price_file, chargers_file, lazy_file_reading=lazy)
         req_fn = UpdateRequestsFromFile.build(req_file, None, lazy_file_reading=lazy)
         cancel_fn = CancelRequests()
+        dispatcher = Dispatcher(env.config.dispatcher)
         sim_enc = enc_sim(n, sim)
         picks: List[List[int]] = []
         obs: List[Dict[str, Any]] = []
@@ -218,10 +221,21 @@ def gen_case(rng: random.Random, k: int) -> Dict[str, Any]:
                 "adds": [n.get("req", r.report["request_id"]) for r in reports if r.report_type == ReportType.ADD_REQUEST_EVENT],
                 "cancels": [n.get("req", r.report["request_id"]) for r in reports if r.report_type == ReportType.CANCEL_REQUEST_EVENT],
                 "present": sorted(n.get("req", r) for r in sim.requests.keys()),
+                "pairs": [],
                 "prices": [[n.get("stn", s.id), [n.get("chg", c), q(cs.price_per_kwh)]]
                            for s in sorted(sim.stations.values(), key=lambda s: n.get("stn", s.id))
                            for c, cs in sorted(s.state.items(), key=lambda kv: n.get("chg", kv[0]))],
             })
+            # now and then the built-in dispatcher looks at the state the readers produced (C10: which
+            # vehicle it pairs with which admitted request)
+            if sim.requests and sim.vehicles and rng.random() < 0.3:
+                try:
+                    _, instrs = dispatcher.generate_instructions(sim, env)
+                    obs[-1]["pairs"] = sorted([n.get("veh", i.vehicle_id), n.get("req", i.request_id)]
+                                              for i in instrs if isinstance(i, DispatchTripInstruction))
+                except Exception as e:
+                    raised = {"step": step, "error": f"dispatcher {type(e).__name__}: {e}"[:200]}
+                    break
             # somebody picks requests up during the step
             gone = []
             for rid in sorted(sim.requests.keys()):
